@@ -69,7 +69,7 @@ theorem enter_sim {s : σ} {m0 : MState F} (hpc : S.cursor s = m0.pc) {rest : Li
     obtain ⟨ia, s1, h1, dia, e1⟩ := hent
     have : jumpTarget P j = .ok t := by simp [jumpTarget, hj]
     rw [this]
-    refine ⟨some t, s1, h1, rfl, e1.keeps.cur, ?_⟩
+    refine ⟨some t, s1, h1, rfl, e1.keeps.cur, ?_, e1.keeps.dec⟩
     exact ⟨e1.regs ▸ decodesList_keeps e1.keeps hrest,
       e1.vals ▸ .cons dia (decodesList_keeps e1.keeps hvals),
       e1.frames ▸ .cons (by simp [hpc]) (decodesList_keeps e1.keeps hrest) (framesRel_keeps e1.keeps hfr),
@@ -157,7 +157,8 @@ theorem applyInternal_sim (L : StoreLaws S) (HR : HostRefines S host) (fuel : Na
       obtain ⟨a, s1, h1, d1, he⟩ := ha
       rw [h1] at hprot
       simp only [] at hprot ⊢
-      refine ⟨some (S.cursor s + 1), s1, hprot, by simp [hpc], he.keeps.cur.trans e0.keeps.cur, ?_⟩
+      refine ⟨some (S.cursor s + 1), s1, hprot, by simp [hpc], he.keeps.cur.trans e0.keeps.cur, ?_,
+        (e0.keeps.trans he.keeps).dec⟩
       exact ⟨he.regs ▸ e0.regs ▸ .cons d1 (decodesList_keeps he.keeps hrest0),
         he.vals ▸ e0.vals ▸ decodesList_keeps he.keeps hvals0,
         he.frames ▸ e0.frames ▸ framesRel_keeps he.keeps hfr0,
@@ -172,7 +173,7 @@ theorem applyInternal_sim (L : StoreLaws S) (HR : HostRefines S host) (fuel : Na
       obtain ⟨u, s2, h2, d2, e2⟩ := hprot
       have k12 := he.keeps.trans e2.keeps
       refine ⟨some (S.cursor s + 1), s2, h2, by simp [hpc],
-        e2.keeps.cur.trans (he.keeps.cur.trans e0.keeps.cur), ?_⟩
+        e2.keeps.cur.trans (he.keeps.cur.trans e0.keeps.cur), ?_, (e0.keeps.trans k12).dec⟩
       exact ⟨e2.regs ▸ he.regs ▸ e0.regs ▸ .cons d2 (decodesList_keeps k12 hrest0),
         e2.vals ▸ he.vals ▸ e0.vals ▸ decodesList_keeps k12 hvals0,
         e2.frames ▸ he.frames ▸ e0.frames ▸ framesRel_keeps k12 hfr0,
@@ -237,7 +238,8 @@ theorem stepSim_emptyApply (L : StoreLaws S) (HR : HostRefines S host) (fuel : N
   | ok p =>
     rw [hr] at hs1
     obtain ⟨md, n⟩ := p
-    obtain ⟨next, s2, h2, hn, hc, hd2⟩ := hs1
-    exact ⟨next, s2, h2, by rw [← eu.keeps.cur]; exact hn, hc.trans eu.keeps.cur, hd2⟩
+    obtain ⟨next, s2, h2, hn, hc, hd2, hk2⟩ := hs1
+    exact ⟨next, s2, h2, by rw [← eu.keeps.cur]; exact hn, hc.trans eu.keeps.cur, hd2,
+      fun a v h => hk2 a v (eu.dec h)⟩
 
 end Garnish.Lemmas.Runtime
